@@ -25,4 +25,6 @@ func emitAll(repo string) {
 	emitRestFacts(repo)
 	// `new` area and every generator package: flagguards.go (flagGuards, flagReads)
 	emitFlagGuards(t)
+	// C11 / C01: jsonshadow.go (jsonShadowRefs)
+	emitJSONShadow(repo)
 }
